@@ -129,6 +129,48 @@ func wholeFileVariants(src string, toks []RTok) []layoutVariant {
 		}
 		return t.Text
 	})})
+	for name, cm := range map[string]string{"doc-comment-every-gap": "/** d **/", "star-only-comment-every-gap": "/***/", "empty-comment-every-gap": "/**/", "slash-star-inside-comment-every-gap": "/*/ x /* y */"} {
+		cm := cm
+		out = append(out, layoutVariant{name, -1, joinToks(toks, func(i int, t RTok) string {
+			if t.Kind != RSpace && t.Kind != REOF && t.Kind != RComment && i > 0 {
+				return cm + t.Text
+			}
+			return t.Text
+		})})
+	}
+	// mixed line ends: LF and CRLF in one file
+	{
+		k := 0
+		out = append(out, layoutVariant{"crlf-except-first-break", -1, joinToks(toks, func(i int, t RTok) string {
+			if t.Kind == RNewline {
+				k++
+				if k > 1 {
+					return "\r\n"
+				}
+			}
+			return t.Text
+		})})
+		k2 := 0
+		out = append(out, layoutVariant{"crlf-every-second-break", -1, joinToks(toks, func(i int, t RTok) string {
+			if t.Kind == RNewline {
+				k2++
+				if k2%2 == 0 {
+					return "\r\n"
+				}
+			}
+			return t.Text
+		})})
+		k3 := 0
+		out = append(out, layoutVariant{"crlf-only-first-break", -1, joinToks(toks, func(i int, t RTok) string {
+			if t.Kind == RNewline {
+				k3++
+				if k3 == 1 {
+					return "\r\n"
+				}
+			}
+			return t.Text
+		})})
+	}
 	out = append(out, layoutVariant{"multiline-block-comment-every-gap", -1, joinToks(toks, func(i int, t RTok) string {
 		if t.Kind != RSpace && t.Kind != REOF && t.Kind != RComment && i > 0 {
 			return "/* m\n   l */" + t.Text
@@ -187,6 +229,8 @@ func siteVariants(toks []RTok) []layoutVariant {
 			at("comment-line-after", i, "// only a comment\n", false)
 			at("block-comment-line-after", i, "\t/* only a comment */\n", false)
 			at("line-comment-before-break", i, " // trailing", true)
+			at("crlf-at-this-break", i, "\r", true)
+			at("doc-comment-before-break", i, " /** d **/", true)
 			at("block-comment-before-break", i, " /* trailing */", true)
 			at("trailing-tab", i, "\t", true)
 		case RSpace:
@@ -272,7 +316,7 @@ func c12Corpus(c *Check) []CorpusProg {
 }
 
 func checkC12(c *Check) {
-	c.Rule = "metamorphic: corpus = the suite's own programs (extracted from tests/*.go), std/*.tsh, examples/*.tsh, generated programs and hand-written accepted/rejected programs; re-layout operators applied to the whole file (CRLF, 4 re-indentations, trailing blanks, comment or blank line at every break, block comment (one-line and spanning two lines) / blank in every gap, final newline, leading blank/comment lines) and singly at every applicable site (blank/comment line after each line break, trailing comment before each break, block comment / blank / tab before each token, removal of each blank) for small programs, sampled sites for large ones; a variant counts only if the reference lexer confirms the token list is preserved; verdict: same accept/reject and byte-identical scripts for both targets. Non-trivial = variant text differs from the original; distinct = SHA-256 of variant text"
+	c.Rule = "metamorphic: corpus = the suite's own programs (extracted from tests/*.go), std/*.tsh, examples/*.tsh, generated programs and hand-written accepted/rejected programs; re-layout operators applied to the whole file (CRLF everywhere, CRLF mixed with LF in three patterns, block comments spelled /** d **/, /***/, /**/ and /*/ x /* y */ in every gap, 4 re-indentations, trailing blanks, comment or blank line at every break, block comment (one-line and spanning two lines) / blank in every gap, final newline, leading blank/comment lines) and singly at every applicable site (blank/comment line after each line break, trailing comment before each break, block comment / blank / tab before each token, removal of each blank) for small programs, sampled sites for large ones; a variant counts only if the reference lexer confirms the token list is preserved; verdict: same accept/reject and byte-identical scripts for both targets. Non-trivial = variant text differs from the original; distinct = SHA-256 of variant text"
 	c.Assumptions = []string{"token preservation is decided by the reference lexer (newline runs collapsed, leading/trailing newlines ignored)", "imports of std files resolve next to the harness binary (copied from /repo/std at check time)"}
 	runProbes(c, bashProbeJudge)
 	corpus := c12Corpus(c)
@@ -332,6 +376,10 @@ func checkC12(c *Check) {
 						return t.Text + "\t/* only a comment */\n"
 					case "line-comment-before-break":
 						return " // trailing" + t.Text
+					case "crlf-at-this-break":
+						return "\r" + t.Text
+					case "doc-comment-before-break":
+						return " /** d **/" + t.Text
 					case "block-comment-before-break":
 						return " /* trailing */" + t.Text
 					case "trailing-tab":
